@@ -262,7 +262,7 @@ mutual
           (info (arrayTypeInner ctx size base (refParse (parseTypeExpr fuel)))))
 end
 
-def typeFuel : Nat := ctx.toks.size + 2
+def typeFuel : Nat := 2 * ctx.toks.size + 4
 
 def refTypeExpr : Option (Ref TypeExpr) → P (Ref TypeExpr) := refParse (parseTypeExpr ctx (typeFuel ctx))
 
